@@ -1,0 +1,5 @@
+//go:build !verif
+
+package formula
+
+func verifTick(int) {}
